@@ -15,7 +15,7 @@ RULE = (
     "share a time and times are shared by / private to either side; source notes carry hitsound_set bit-fields "
     "(normal=1, clap=2, finish=4, whistle=8 and their unions), volumes from a drawn set of 1..3 values out of 0..100 "
     "(so volume groups repeat and differ), named samples (hitsound_file) and occasionally sample/addition/custom sets; "
-    "hits and holds on both sides, rows shuffled, key counts drawn independently; targets with fewer notes at a time "
+    "hits and holds on both sides, rows shuffled, key counts drawn independently, hit lists sometimes grown by append(item) after construction; targets with fewer notes at a time "
     "than the source has sounds (overflow), stacked target notes, targets with their own hitsounds and their own event "
     "samples; both charts have tempo/SV lists and metadata. Oracle: plain-Python per-time multiset accounting over the "
     "generated rows (no reamber code). Non-trivial = some time that has >= 1 target note where the source needs more "
@@ -123,7 +123,12 @@ def case_st(draw, tier):
     own = draw(st.integers(0, 2)) == 0
     src = draw(_chart(ks, pool, vols, n_src, "rich", draw(st.sampled_from([0, 0, 1, 2]))))
     tgt = draw(_chart(kt, pool, vols + [55], n_tgt, "own" if own else "none", draw(st.sampled_from([0, 0, 1, 3]))))
-    return dict(src=src, tgt=tgt)
+    # some lists are grown by append(item) after construction instead of being passed whole to the constructor
+    grow = dict(
+        src=min(draw(st.sampled_from([0, 0, 0, 1, 2])), len(src["lists"]["hits"])),
+        tgt=min(draw(st.sampled_from([0, 0, 0, 1, 2])), len(tgt["lists"]["hits"])),
+    )
+    return dict(src=src, tgt=tgt, grow=grow)
 
 
 # ---------------------------------------------------------------------------
@@ -284,6 +289,18 @@ def _result_notes(r):
     return out
 
 
+def _build(chart, grow):
+    """Build the chart; the last `grow` hits are appended one by one with TimedList.append(item)."""
+    if not grow:
+        return B.build(chart)
+    hits = chart["lists"]["hits"]
+    m = B.build(dict(chart, lists=dict(chart["lists"], hits=hits[:-grow])))
+    cls = B.item_class("osu", "hits")
+    for row in hits[-grow:]:
+        m.hits = m.hits.append(cls(**row))
+    return m
+
+
 def check(case, ctx):
     from reamber.algorithms.osu.hitsound_copy import hitsound_copy
     from reamber.osu.OsuMap import OsuMap
@@ -291,7 +308,8 @@ def check(case, ctx):
     src_c, tgt_c = case["src"], case["tgt"]
     src_notes, tgt_notes = notes_of_chart(src_c), notes_of_chart(tgt_c)
     tgt_events = tgt_c["meta"].get("samples", [])
-    S, T = B.build(src_c), B.build(tgt_c)
+    grow = case.get("grow") or {}
+    S, T = _build(src_c, grow.get("src", 0)), _build(tgt_c, grow.get("tgt", 0))
 
     # classes
     summ = source_summary(src_notes)
@@ -329,6 +347,8 @@ def check(case, ctx):
     ctx.label("tgt-own-sample-sets", any(int(n[f]) != 0 for n in tgt_notes for f in SET_FIELDS))
     ctx.label("tgt-own-event-samples", bool(tgt_events))
     ctx.label("src-own-event-samples", bool(src_c["meta"].get("samples")))
+    ctx.label("src-list-grown-by-append", bool(grow.get("src")))
+    ctx.label("tgt-list-grown-by-append", bool(grow.get("tgt")))
     ctx.label("keys-differ", src_c["keys"] != tgt_c["keys"])
     ctx.label("src-note-file+bits", any(n["hitsound_file"] and int(n["hitsound_set"]) & 14 for n in src_notes))
     ctx.label("src-normal-bit-only", any(int(n["hitsound_set"]) == 1 and not n["hitsound_file"] for n in src_notes))
@@ -373,7 +393,7 @@ def _diff(a, b):
 
 
 SUBS = [
-    Sub("copy", check, strategy=case_st, examples={"quick": 450, "thorough": 4000}, shards={"quick": 6, "thorough": 16}),
+    Sub("copy", check, strategy=case_st, examples={"quick": 450, "thorough": 3000}, shards={"quick": 6, "thorough": 16}),
 ]
 
 MANIFEST = dict(
